@@ -50,3 +50,13 @@ claim('C05',
       'that invariant is not claimed.',
       'gcirc -> symbolic distance matrix; chunks.__init__/assign -> symbolic membership under the stated invariant (assumed, not shown); '
       'numpy.deg2rad -> identity. A defect confined to the chunk geometry is not detected.', 'DESIGN.md 4/C05')
+claim('C08',
+      'bspline.__init__, intrv, bsplvn, action and value are executed symbolically: the abscissa, the coefficient vector and (orders <= 4) '
+      'the breakpoints themselves are solver variables. Within the bounds the solver shows for EVERY abscissa / knot vector / coefficient '
+      'vector: basis functions >= 0 and summing to 1 on the breakpoint range, value() equal to an independently written de Boor '
+      'evaluation in the caller\'s order for 1-3 evaluation points given in any order, mask False exactly outside the range, and for each '
+      'of the five breakpoint options a non-decreasing knot vector that covers the data with order-1 extra knots per side.',
+      'Floats are exact reals (no rounding; float32 breakpoint storage exact). Symbolic knots: orders 1-3 (order 4 for identities only: '
+      'the sign condition at order 4 with symbolic knots is unknown to z3 after 240 s); orders 4-6 otherwise on three concrete knot families. '
+      'Polynomial / rational-function identities are normalised to canonical form before they are handed to z3 (pathsym/polynorm.py). '
+      'Explicit/placed breakpoints and everyn data are assumed increasing. npoly > 1 not covered.', 'DESIGN.md 4/C08')
